@@ -8,6 +8,8 @@ import (
 	"testing/fstest"
 	"time"
 
+	"golang.org/x/net/html"
+
 	"github.com/titpetric/vuego"
 
 	"verif/engine/core"
@@ -30,6 +32,10 @@ var c15Events = func() []string {
 	var ev []string
 	for _, f := range c15FilesList {
 		ev = append(ev, "edit+:"+f, "edit=:"+f, "edit-:"+f)
+		if f == "page" {
+			// the new version has no modification time (a file system without them took the file's place)
+			ev = append(ev, "edit0:"+f)
+		}
 	}
 	for _, f := range []string{"page", "comp", "lay"} {
 		ev = append(ev, "delete:"+f, "invalid:"+f)
@@ -51,6 +57,45 @@ func c15Content(f string, v int, invalid bool) string {
 		return fmt.Sprintf("---\nlv: LV%d\n---\n<main>L%d {{ lv }}<div v-html=\"content\"></div></main>", v, v)
 	}
 	panic(f)
+}
+
+// c15Proc is registered on every engine, long-lived and fresh alike: its pre-processing step
+// marks every element (appends to its class). Applied once per render to that render's own
+// nodes it is invisible to the comparison; applied to nodes that live longer than a render it
+// accumulates.
+type c15Proc struct{}
+
+func (c15Proc) New() vuego.NodeProcessor { return c15Proc{} }
+func (c15Proc) PostProcess(nodes []*html.Node) error { return nil }
+func (c15Proc) PreProcess(nodes []*html.Node) error {
+	var walk func(n *html.Node)
+	walk = func(n *html.Node) {
+		if n.Type == html.ElementNode && n.Data != "template" {
+			found := false
+			for i := range n.Attr {
+				if n.Attr[i].Key == "class" {
+					n.Attr[i].Val += " pp"
+					found = true
+				}
+			}
+			if !found {
+				n.Attr = append(n.Attr, html.Attribute{Key: "class", Val: "pp"})
+			}
+		}
+		for c := n.FirstChild; c != nil; c = c.NextSibling {
+			walk(c)
+		}
+	}
+	for _, n := range nodes {
+		walk(n)
+	}
+	return nil
+}
+
+func c15Vue(fsys fs.FS) *vuego.Vue {
+	v := vuego.NewVue(fsys)
+	v.RegisterNodeProcessor(c15Proc{})
+	return v
 }
 
 // countFS counts Open calls per path.
@@ -114,8 +159,8 @@ func newC15World() *c15World {
 	w.nextVer = 1
 	w.sync()
 	w.efs = map[string]*countFS{"tpl": {m: w.fs.m, opens: map[string]int{}}, "vue": {m: w.fs.m, opens: map[string]int{}}}
-	w.tpl = vuego.NewFS(w.efs["tpl"])
-	w.vue = vuego.NewVue(w.efs["vue"])
+	w.tpl = vuego.NewFS(w.efs["tpl"], vuego.WithProcessor(c15Proc{}))
+	w.vue = c15Vue(w.efs["vue"])
 	return w
 }
 
@@ -225,7 +270,7 @@ func (c *c15Case) runB(ctx *core.Ctx) {
 			}
 			fsys = vuego.NewOverlayFS(m, lower)
 		}
-		tpl := vuego.NewFS(fsys)
+		tpl := vuego.NewFS(fsys, vuego.WithProcessor(c15Proc{}))
 		ok := true
 		rendered := ""
 		var held vuego.Template
@@ -274,7 +319,7 @@ func (c *c15Case) runB(ctx *core.Ctx) {
 				ctx.Eval(2)
 				ctx.Transition(1)
 				got := render(tpl, parts[1], parts[2])
-				want := render(vuego.NewFS(fsys), parts[1], parts[2])
+				want := render(vuego.NewFS(fsys, vuego.WithProcessor(c15Proc{})), parts[1], parts[2])
 				rendered += parts[1] + parts[2] + ","
 				if got != want {
 					ctx.Violation("stale-render", "world-"+c.World+"/entry-"+parts[1]+"/"+parts[2], c15Class(hist[:step+1]), fmt.Sprintf("history %v: long-lived engine rendered %q, fresh engine %q", hist[:step+1], clip(got, 300), clip(want, 300)))
@@ -386,7 +431,7 @@ func (c *c15Case) Run(ctx *core.Ctx) {
 		for step, ev := range hist {
 			kind, arg, _ := strings.Cut(ev, ":")
 			switch kind {
-			case "edit+", "edit=", "edit-":
+			case "edit+", "edit=", "edit-", "edit0":
 				st := w.files[arg]
 				st.exists, st.invalid = true, false
 				st.ver = w.nextVer
@@ -396,6 +441,8 @@ func (c *c15Case) Run(ctx *core.Ctx) {
 					st.mtime = st.mtime.Add(time.Hour)
 				case "edit-":
 					st.mtime = st.mtime.Add(-time.Hour)
+				case "edit0":
+					st.mtime = time.Time{}
 				}
 				w.sync()
 			case "delete":
@@ -432,7 +479,7 @@ func (c *c15Case) Run(ctx *core.Ctx) {
 				}
 				// reference: fresh engines on the current files
 				fresh := &countFS{m: w.fs.m, opens: map[string]int{}}
-				want := c15Render(arg, vuego.NewFS(fresh), vuego.NewVue(fresh))
+				want := c15Render(arg, vuego.NewFS(fresh, vuego.WithProcessor(c15Proc{})), c15Vue(fresh))
 				// unconstrained: the engine's cache holds other content under the very same mtime
 				unconstrained := false
 				for _, f := range c15Involved(arg) {
@@ -527,7 +574,7 @@ func init() {
 	core.Register(&core.Check{
 		ID:    "C15",
 		Level: "model_checking",
-		Rule: "explicit-state search over all histories up to the bound of {edit page/component/layout with an mtime that advances, stays equal or goes back; delete; make invalid (broken front-matter); render through Load().Render, RenderFile, Vue.Render (with and without data), Vue.RenderFragment} on an in-memory file system with chosen mtimes; each history is replayed on fresh long-lived engines. " +
+		Rule: "explicit-state search over all histories up to the bound of {edit page/component/layout with an mtime that advances, stays equal, goes back or (page) becomes the zero time; delete; make invalid (broken front-matter); render through Load().Render, RenderFile, Vue.Render (with and without data), Vue.RenderFragment} on an in-memory file system with chosen mtimes; each history is replayed on fresh long-lived engines (every engine carries a node processor whose pre-processing step marks the elements it is shown, so that nodes which outlive a render show it). " +
 			"A second world does the same for layout resolution: a post naming layout `wide` with a relative twin (blog/wide.vuego), a layouts/wide.vuego fallback and layouts/base.vuego, a page without layout; events create/edit/delete each of them, render both pages through Load().Render and RenderFile, and keep a loaded Template object across later events and render it then; the same world once more with the files overlaid (OverlayFS) on an unchanging layer of defaults for every path. " +
 			"oracle: after every render event, bytes/error equal those of newly created engines on the current files (differential, no hand-written expectation). states = distinct (file states, possibly-cached versions); a wrapping fs.FS counts reads to show that cache hits happen. non-trivial = all",
 		Bounds:      map[string]string{"quick": "histories of <=5 events over 19 event kinds; layout world: <=6 events over 12 kinds", "thorough": "histories of <=6 events; layout world <=7"},
